@@ -8,6 +8,7 @@ From RV Require Import Base.
 From RV.Model Require Import Utf8 Indexer CodePointSet Insn Fold IR Optimizer Unfold Emit ClassSet.
 From RV.Spec Require Import Spec IRSem IRShape.
 From RV.Proofs Require Import CpsProofs Closure ClassSetProofs OptMono OptBrackets OptTop Utf8Facts Utf8Valid OptTextUtf8 ClassAtom.
+From Coq Require Import Btauto.
 
 (* the sequence as the syntax tree of the reference (right-nested, as the stream prints it) *)
 Fixpoint seq_of (rs : list regex) : regex :=
@@ -389,3 +390,217 @@ Section Alt.
     - apply IH. inversion Hm; assumption.
   Qed.
 End Alt.
+
+(* ---- the same with zero-width atoms: ^ $ \b \B.  A general atom denotes a list of positions (one step ahead for a
+   character atom, the position itself or nothing for an assertion) ---- *)
+Section GSeq.
+  Variable foldf : N -> bool -> N.
+  Variables unicode utf16 : bool.
+  Variable cs : list (list N).
+  Hypothesis Hw : wf_text cs.
+  Variable eqclass : N -> list N.
+  Notation canon := (fun x => fold_code_point x unicode).
+  Notation u8 := (utf8_indexer foldf).
+  Notation text := (concat cs).
+  Notation chars := (map dec cs).
+  Notation ES := (es_results canon eqclass chars).
+  Notation IR := (ir_results u8 unicode utf16 text).
+  Notation lift := (@lift).
+
+  Definition gatom (r : regex) (n : node) (P : nat -> list nat) : Prop :=
+    (forall f (x : mstate), ES (S f) r Fwd x = Some (lift _ P x)) /\
+    (forall f i (G : list groupdata), (i <= length cs)%nat -> IR (S f) n true (off cs i, G) = Some (map (phi cs) (lift _ P (i, G)))) /\
+    (forall i, (i <= length cs)%nat -> Forall (fun j => (j <= length cs)%nat) (P i)).
+
+  (* a character atom is a general atom *)
+  Lemma atom_gatom r n t : atom foldf unicode utf16 cs eqclass r n t -> gatom r n (posD cs t).
+  Proof.
+    intros [Hr Hn]. split; [|split].
+    - intros f x. rewrite Hr. apply f_equal. apply stepD_lift.
+    - intros f i G Hi. rewrite (Hn f i G Hi). apply f_equal. change (fun y : nat * list groupdata => (off cs (fst y), snd y)) with (@phi cs (list groupdata)).
+      f_equal. apply stepD_lift.
+    - intros i Hi. unfold posD. destruct (nth_error chars i) as [d|] eqn:E; [|constructor]. destruct (t d); [|constructor].
+      constructor; [|constructor]. assert (Hl : (i < length chars)%nat) by (apply nth_error_Some; congruence). rewrite map_length in Hl. lia.
+  Qed.
+
+  Fixpoint gchain (Ps : list (nat -> list nat)) (l : list nat) : list nat :=
+    match Ps with [] => l | P :: Ps' => gchain Ps' (flat_map P l) end.
+  Lemma gchain_flat Ps : forall l, gchain Ps l = flat_map (fun y => gchain Ps [y]) l.
+  Proof.
+    induction Ps as [|P Ps IH]; intros l; cbn [gchain].
+    - induction l as [|y l IHl]; [reflexivity|]. cbn [flat_map app]. rewrite <- IHl. reflexivity.
+    - rewrite IH, flat_map_flat_map. apply flat_map_ext. intros y. cbn [flat_map]. rewrite app_nil_r. symmetry. apply IH.
+  Qed.
+
+  Lemma lift_flat {S} (P : nat -> list nat) (l : list nat) (s : S) :
+    flat_map (lift S P) (map (fun j => (j, s)) l) = map (fun j => (j, s)) (flat_map P l).
+  Proof. induction l as [|j l IH]; [reflexivity|]. cbn [map flat_map]. rewrite map_app, IH. reflexivity. Qed.
+
+  Lemma lift_flat_mst (P : nat -> list nat) (l : list nat) (G : list groupdata) :
+    @flat_map mst mst (lift (list groupdata) P) (map (fun j => (j, G)) l) = map (fun j => (j, G)) (flat_map P l).
+  Proof. exact (lift_flat P l G). Qed.
+
+  (* the reference side *)
+  Theorem es_gsequence : forall rs Ps, Forall2 (fun r P => forall f (x : mstate), ES (S f) r Fwd x = Some (lift _ P x)) rs Ps ->
+    forall f (x : mstate), (length rs <= f)%nat -> ES (S f) (seq_of rs) Fwd x = Some (lift _ (fun i => gchain Ps [i]) x).
+  Proof.
+    induction 1 as [|r P rs Ps Hr Hrest IH]; intros f x Hf.
+    - destruct x as [p c]. reflexivity.
+    - destruct rs as [|r2 rs'].
+      + inversion Hrest; subst. cbn [seq_of]. rewrite Hr. unfold lift. cbn [gchain flat_map]. rewrite app_nil_r. reflexivity.
+      + cbn [length] in Hf. destruct f as [|f0]; [lia|].
+        change (seq_of (r :: r2 :: rs')) with (RSeq r (seq_of (r2 :: rs'))). rewrite (es_seq_unfold unicode cs eqclass). rewrite (Hr f0 x).
+        rewrite (obind_all (ES (S f0) (seq_of (r2 :: rs')) Fwd) (fun y => lift _ (fun i => gchain Ps [i]) y)) by (intros y; apply IH; cbn [length] in *; lia).
+        f_equal. unfold lift. cbn [gchain flat_map]. rewrite app_nil_r. rewrite (gchain_flat Ps (P (fst x))).
+        destruct x as [p c]. cbn [fst snd]. generalize (P p). intros l. induction l as [|j l IHl]; [reflexivity|].
+        cbn [map flat_map]. rewrite map_app, IHl. reflexivity.
+  Qed.
+
+  (* the IR side *)
+  Theorem ir_gsequence : forall ns Ps, Forall2 (fun n P => (forall f i (G : list groupdata), (i <= length cs)%nat ->
+      IR (S f) n true (off cs i, G) = Some (map (phi cs) (lift _ P (i, G)))) /\
+      (forall i, (i <= length cs)%nat -> Forall (fun j => (j <= length cs)%nat) (P i))) ns Ps ->
+    forall f (l : list nat) (G : list groupdata), Forall (fun j => (j <= length cs)%nat) l ->
+      cat_results (fun c => IR (S f) c true) ns (map (phi cs) (map (fun j => (j, G)) l)) = Some (map (phi cs) (map (fun j => (j, G)) (gchain Ps l))).
+  Proof.
+    induction 1 as [|n P ns Ps [Hn Hin] Hrest IH]; intros f l G Hl; cbn [cat_results gchain]; [reflexivity|].
+    rewrite (obindm_mapped cs _ (lift _ P)).
+    - rewrite lift_flat_mst. apply IH. clear - Hl Hin. induction l as [|j l IHl]; [constructor|]. cbn [flat_map]. inversion Hl; subst.
+      apply Forall_app. split; [apply Hin; assumption|apply IHl; assumption].
+    - intros [i G0] Hy. apply in_map_iff in Hy as (j & Ej & Hj). inversion Ej; subst. rewrite Forall_forall in Hl. specialize (Hl _ Hj).
+      unfold phi at 1. cbn [fst snd]. apply Hn. exact Hl.
+  Qed.
+
+  Theorem sequence_of_gatoms : forall rs ns Ps, Forall3 gatom rs ns Ps ->
+    den foldf unicode utf16 cs eqclass (seq_of rs) (NCat ns) (fun i => gchain Ps [i]) (length rs) 1.
+  Proof.
+    intros rs ns Ps H3. split.
+    - intros f x Hf. apply es_gsequence; [|exact Hf]. clear - H3. induction H3 as [|r n P rs ns Ps (Hr & _ & _) _ IH]; constructor; assumption.
+    - intros f i G Hf Hi. destruct f as [|f']; [lia|]. rewrite (cat_unfold foldf unicode utf16 cs).
+      change [(off cs i, G)] with (map (phi cs) (map (fun j => (j, G)) [i])). rewrite (ir_gsequence ns Ps).
+      + reflexivity.
+      + clear - H3. induction H3 as [|r n P rs ns Ps (_ & Hn & Hin) _ IH]; constructor; [split; assumption|assumption].
+      + constructor; [exact Hi|constructor].
+  Qed.
+
+  (* ---- the assertions ^ $ \b \B ---- *)
+  Lemma peek_right_at i : (i <= length cs)%nat -> peek_right u8 text (off cs i) = Ok (nth_error chars i).
+  Proof.
+    intros Hi. unfold peek_right. cbn [ix_next_right utf8_indexer]. rewrite nth_error_map.
+    destruct (nth_error cs i) as [c|] eqn:E; cbn [option_map].
+    - assert (Hc : wf_char c = true) by (unfold wf_text in Hw; rewrite Forall_forall in Hw; apply Hw; eapply nth_error_In; exact E).
+      rewrite (split_at cs i c E) at 1. rewrite concat_mid. unfold off. rewrite (u8_right_at _ c _ Hc). reflexivity.
+    - assert (i = length cs) by (apply nth_error_None in E; lia). subst i. rewrite (off_end cs). unfold u8_next_right. rewrite Nat.eqb_refl. reflexivity.
+  Qed.
+  Lemma peek_left_at i : (i <= length cs)%nat -> peek_left u8 text (off cs i) = Ok (match i with O => None | S j => nth_error chars j end).
+  Proof.
+    intros Hi. unfold peek_left. cbn [ix_next_left utf8_indexer]. destruct i as [|j].
+    - unfold off. cbn [firstn concat length]. reflexivity.
+    - rewrite nth_error_map. destruct (nth_error cs j) as [c|] eqn:E; [|apply nth_error_None in E; lia]. cbn [option_map].
+      assert (Hc : wf_char c = true) by (unfold wf_text in Hw; rewrite Forall_forall in Hw; apply Hw; eapply nth_error_In; exact E).
+      rewrite (off_S cs j c E). rewrite (split_at cs j c E) at 1. rewrite concat_mid. unfold off. rewrite (u8_left_at _ c _ Hc). reflexivity.
+  Qed.
+
+  Definition assertP (cond : nat -> bool) (i : nat) : list nat := if cond i then [i] else [].
+  Lemma assert_inside cond i : (i <= length cs)%nat -> Forall (fun j => (j <= length cs)%nat) (assertP cond i).
+  Proof. intros Hi. unfold assertP. destruct (cond i); repeat constructor. exact Hi. Qed.
+
+  Definition bol_cond (ml : bool) (i : nat) : bool :=
+    (i =? 0)%nat || (ml && match i with O => false | S q => match nth_error chars q with Some c => is_lt c | None => false end end).
+  Theorem bol_is_gatom ml : gatom (RBol ml) (NAnchor true ml) (assertP (bol_cond ml)).
+  Proof.
+    split; [|split; [|intros i Hi; apply assert_inside; exact Hi]].
+    - intros f [p c]. cbn [es_results]. unfold lift, assertP, bol_cond. cbn [fst snd].
+      match goal with |- Some (if ?b then _ else _) = Some (map _ (if ?b' then _ else _)) => change b' with b; destruct b end; reflexivity.
+    - intros f i G Hi. cbn [ir_results]. unfold cond_results, start_of_line. rewrite (peek_left_at i Hi). cbn [bindR].
+      unfold lift, assertP, bol_cond. cbn [fst snd]. destruct i as [|j]; [reflexivity|].
+      assert (Hj : (j < length chars)%nat) by (rewrite map_length; lia). destruct (nth_error chars j) as [c|] eqn:E; [|apply nth_error_None in E; lia].
+      cbn [Nat.eqb orb]. change (is_line_terminator c) with (is_lt c). destruct (ml && is_lt c); reflexivity.
+  Qed.
+
+  Definition eol_cond (ml : bool) (i : nat) : bool :=
+    (i =? length chars)%nat || (ml && match nth_error chars i with Some c => is_lt c | None => false end).
+  Theorem eol_is_gatom ml : gatom (REol ml) (NAnchor false ml) (assertP (eol_cond ml)).
+  Proof.
+    split; [|split; [|intros i Hi; apply assert_inside; exact Hi]].
+    - intros f [p c]. cbn [es_results]. unfold lift, assertP, eol_cond. cbn [fst snd].
+      match goal with |- Some (if ?b then _ else _) = Some (map _ (if ?b' then _ else _)) => change b' with b; destruct b end; reflexivity.
+    - intros f i G Hi. cbn [ir_results]. unfold cond_results, end_of_line. rewrite (peek_right_at i Hi). cbn [bindR].
+      unfold lift, assertP, eol_cond. cbn [fst snd]. rewrite map_length.
+      destruct (nth_error chars i) as [c|] eqn:E.
+      + assert (Hl : (i < length chars)%nat) by (apply nth_error_Some; congruence). rewrite map_length in Hl.
+        replace (i =? length cs)%nat with false by (symmetry; apply Nat.eqb_neq; lia). cbn [orb].
+        change (is_line_terminator c) with (is_lt c). destruct (ml && is_lt c); reflexivity.
+      + apply nth_error_None in E. rewrite map_length in E. replace (i =? length cs)%nat with true by (symmetry; apply Nat.eqb_eq; lia). reflexivity.
+  Qed.
+
+  Lemma is_word_eq extra c : is_word extra c = (if extra then is_word_char c || (c =? 383) || (c =? 8490) else is_word_char c).
+  Proof.
+    unfold is_word, is_word_char.
+    generalize (48 <=? c) (c <=? 57) (65 <=? c) (c <=? 90) (97 <=? c) (c <=? 122) (c =? 95) (c =? 383) (c =? 8490). intros.
+    destruct extra; btauto.
+  Qed.
+
+  Definition wb_cond (inv extra : bool) (i : nat) : bool := xorb inv (xorb (word_before chars extra i) (word_at chars extra i)).
+  Theorem wordb_is_gatom inv extra : gatom (RWordB inv extra) (NWordBoundary inv extra) (assertP (wb_cond inv extra)).
+  Proof.
+    split; [|split; [|intros i Hi; apply assert_inside; exact Hi]].
+    - intros f [p c]. cbn [es_results]. unfold lift, assertP, wb_cond. cbn [fst snd].
+      match goal with |- Some (if ?b then _ else _) = Some (map _ (if ?b' then _ else _)) => change b' with b; destruct b end; reflexivity.
+    - intros f i G Hi. cbn [ir_results]. unfold cond_results, word_boundary. rewrite (peek_left_at i Hi), (peek_right_at i Hi). cbn [bindR].
+      unfold lift, assertP, wb_cond, word_before, word_at. cbn [fst snd].
+      assert (El : match (match i with O => None | S j => nth_error chars j end) with
+                   | Some c => if extra then is_word_char c || (c =? 383) || (c =? 8490) else is_word_char c | None => false end =
+                   match i with O => false | S q => match nth_error chars q with Some c => is_word extra c | None => false end end).
+      { destruct i as [|j]; [reflexivity|]. destruct (nth_error chars j) as [c|]; [rewrite is_word_eq|]; reflexivity. }
+      assert (Er : match nth_error chars i with
+                   | Some c => if extra then is_word_char c || (c =? 383) || (c =? 8490) else is_word_char c | None => false end =
+                   match nth_error chars i with Some c => is_word extra c | None => false end).
+      { destruct (nth_error chars i) as [c|]; [rewrite is_word_eq|]; reflexivity. }
+      rewrite <- El, <- Er.
+      generalize (match (match i with O => None | S j => nth_error chars j end) with
+                  | Some c => if extra then is_word_char c || (c =? 383) || (c =? 8490) else is_word_char c | None => false end).
+      generalize (match nth_error chars i with
+                  | Some c => if extra then is_word_char c || (c =? 383) || (c =? 8490) else is_word_char c | None => false end).
+      intros rw lw. destruct lw, rw, inv; reflexivity.
+  Qed.
+End GSeq.
+
+(* ---- alternations of terms of general atoms: the fragment  atoms, assertions, concatenation, alternation ---- *)
+Section GAlt.
+  Variable foldf : N -> bool -> N.
+  Variables unicode utf16 : bool.
+  Variable cs : list (list N).
+  Hypothesis Hw : wf_text cs.
+  Variable eqclass : N -> list N.
+  Notation gatom := (gatom foldf unicode utf16 cs eqclass).
+  Notation den := (den foldf unicode utf16 cs eqclass).
+
+  Lemma den_gterm rs ns Ps : Forall3 gatom rs ns Ps -> den (seq_of rs) (make_cat ns) (fun i => gchain Ps [i]) (length rs) 1.
+  Proof.
+    intros H3. destruct H3 as [|r n P rs ns Ps Ha Hrest].
+    - cbn [seq_of make_cat gchain length]. split; [intros f [p c] _; reflexivity|intros f i G _ _; reflexivity].
+    - destruct Hrest as [|r2 n2 P2 rs ns Ps Ha2 Hrest].
+      + cbn [seq_of make_cat length]. destruct Ha as (Hr & Hn & _). split.
+        * intros f x _. rewrite Hr. unfold lift. cbn [gchain flat_map]. rewrite app_nil_r. reflexivity.
+        * intros f i G _ Hi. rewrite (Hn f i G Hi). unfold lift. cbn [gchain flat_map fst]. rewrite app_nil_r. reflexivity.
+      + change (make_cat (n :: n2 :: ns)) with (NCat (n :: n2 :: ns)). apply sequence_of_gatoms. constructor; [exact Ha|constructor; assumption].
+  Qed.
+
+  Theorem alternation_of_gterms : forall rss nss Pss, Forall3 (Forall3 gatom) rss nss Pss -> rss <> [] ->
+    forall fuel, (length nss <= fuel)%nat -> forall m, Forall (fun rs => (length rs <= m)%nat) rss ->
+    den (alt_of (map seq_of rss)) (make_alt fuel (map make_cat nss)) (catP (map (fun Ps i => gchain Ps [i]) Pss))
+        (m + length rss) (1 + fuel).
+  Proof.
+    intros rss nss Pss H3 Hne fuel Hfuel m Hm.
+    assert (Hln : length nss = length rss) by (clear - H3; induction H3; cbn [length]; congruence).
+    destruct (make_alt_tree foldf unicode fuel (map make_cat nss)) as (t & Et & Lt & Dt).
+    { destruct nss; [destruct rss; [contradiction|discriminate Hln]|discriminate]. }
+    { rewrite map_length. exact Hfuel. }
+    rewrite Et. apply (den_weaken foldf unicode utf16 cs eqclass _ _ _ (m + length (map seq_of rss)) (1 + depth t)); [rewrite map_length; lia|lia|].
+    apply alternation; [|destruct rss; [contradiction|discriminate]].
+    rewrite Lt. clear - H3 Hm Hw. induction H3 as [|rs ns Ps rss nss Pss Ht Hrest IH]; cbn [map]; constructor.
+    - inversion Hm; subst. apply (den_weaken foldf unicode utf16 cs eqclass _ _ _ (length rs) 1); [assumption|lia|]. apply den_gterm. exact Ht.
+    - apply IH. inversion Hm; assumption.
+  Qed.
+End GAlt.
